@@ -20,6 +20,7 @@ import (
 	"sort"
 	"strings"
 	"sync"
+	"sync/atomic"
 	"syscall"
 	"time"
 )
@@ -178,6 +179,7 @@ type Disk struct {
 	logging bool
 	locks   map[string]bool
 	fault   FaultFn
+	preSync atomic.Pointer[func(path string)]
 	// FaultsFired counts injected faults per kind (measured, for evidence).
 	FaultsFired map[string]int64
 	// OpCounts counts executed mutating ops per kind.
@@ -209,6 +211,17 @@ func (d *Disk) SetFault(f FaultFn) {
 	d.mu.Lock()
 	d.fault = f
 	d.mu.Unlock()
+}
+
+// SetPreSync installs a hook that runs at the start of every file/directory
+// sync, before anything of the sync is applied and without the disk lock held:
+// the caller of Sync is held "in flight" for as long as the hook runs (nil = none).
+func (d *Disk) SetPreSync(f func(path string)) {
+	if f == nil {
+		d.preSync.Store(nil)
+		return
+	}
+	d.preSync.Store(&f)
 }
 
 // Seq is the number of mutating operations applied so far (the global event
@@ -892,6 +905,9 @@ func (h *Handle) Chmod(m os.FileMode) error {
 
 // Sync makes the file's data (or the directory's entries) durable.
 func (h *Handle) Sync() error {
+	if f := h.d.preSync.Load(); f != nil {
+		(*f)(h.path) // called WITHOUT the disk lock: the sync is "in flight", nothing of it applied yet
+	}
 	h.d.mu.Lock()
 	defer h.d.mu.Unlock()
 	if h.closed {
